@@ -29,6 +29,8 @@ struct Machine {
   std::unordered_map<uint64_t, uint8_t> mem;
   std::string fault;             // architectural fault (misaligned aligned-move, sp misaligned on a64, ...)
   std::string unsupported;       // instruction/operand outside the vocabulary
+  bool encoder_reg_ids = false;  // model `movss/movsd mem, <gp-typed reg>` the way the non-validating assembler encodes it (XMM<id>)
+  long ill_typed_scalar_moves = 0;
   bool uninit_read = false;      // a byte never written was read
   uint64_t uninit_addr = 0;
   bool returned = false;
@@ -159,6 +161,14 @@ struct X86 {
   // scalar moves movd/movq/movss/movsd (n = 4 or 8)
   void mov_scalar(const InstNode* in, unsigned n, bool vex, bool fp) {
     const Operand_& d = in->op(0); const Operand_& s = in->op(in->op_count() - 1);
+    if (fp && m.encoder_reg_ids && !is_mm(d) && !is_mm(s) && in->op_count() == 2 && ((is_gp(d) && s.is_mem()) || (d.is_mem() && is_gp(s)))) {
+      // what a non-validating x86::Assembler encodes for `movss/movsd mem, <gp-typed reg>`: only the register id is used => XMM<id>
+      m.ill_typed_scalar_moves++;
+      uint32_t id = (is_gp(d) ? d.as<Reg>().id() : s.as<Reg>().id()) & 31;
+      if (d.is_mem()) { uint64_t v = 0; memcpy(&v, m.vec[id], n); m.wr(ea(d.as<x86::Mem>()), v, n); }
+      else { uint64_t v = m.rd(ea(s.as<x86::Mem>()), n); memset(m.vec[id], 0, vex ? 64 : 16); memcpy(m.vec[id], &v, n); }
+      return;
+    }
     if (fp && (is_gp(d) || is_gp(s) || is_mm(d) || is_mm(s))) { m.unsupported = "invalid operands for movss/movsd"; return; }
     if (in->op_count() == 3) {   // vmovss/vmovsd xmm1, xmm2, xmm3: low from src3, rest of 128 from src2
       if (!(is_vec(d) && is_vec(in->op(1)) && is_vec(s))) { m.unsupported = "3-operand scalar move"; return; }
@@ -440,6 +450,12 @@ struct A64 {
       }
       case I::kIdNeg: { if (!is_gp(o0) || !is_gp(o1) || n != 2) break; unsigned b = reg_bytes(o0.as<Reg>()); gp_write(o0.as<Reg>(), (0 - gp_read(o1.as<Reg>())) & mask_n(b)); return 0; }   // [added for C05]
       case I::kIdMvn: { if (!is_gp(o0) || !is_gp(o1) || n != 2) break; unsigned b = reg_bytes(o0.as<Reg>()); gp_write(o0.as<Reg>(), ~gp_read(o1.as<Reg>()) & mask_n(b)); return 0; }        // [added for C05]
+      case I::kIdSxtb: case I::kIdSxth: case I::kIdSxtw: case I::kIdUxtb: case I::kIdUxth: {   // [added for C06: register-to-register argument extension]
+        if (!is_gp(o0) || !is_gp(o1) || n != 2) break;
+        unsigned sb = (id == I::kIdSxtb || id == I::kIdUxtb) ? 1 : id == I::kIdSxtw ? 4 : 2; bool sg = id == I::kIdSxtb || id == I::kIdSxth || id == I::kIdSxtw;
+        unsigned b = reg_bytes(o0.as<Reg>()); uint64_t v = gp_read(o1.as<Reg>()) & mask_n(sb);
+        gp_write(o0.as<Reg>(), (sg ? uint64_t(sext_n(v, sb)) : v) & mask_n(b)); return 0;
+      }
       case I::kIdMul: { unsigned b = reg_bytes(o0.as<Reg>()); gp_write(o0.as<Reg>(), (gp_read(o1.as<Reg>()) * gp_read(o2.as<Reg>())) & mask_n(b)); return 0; }
       case I::kIdMadd: { unsigned b = reg_bytes(o0.as<Reg>()); gp_write(o0.as<Reg>(), (gp_read(o1.as<Reg>()) * gp_read(o2.as<Reg>()) + gp_read(in->op(3).as<Reg>())) & mask_n(b)); return 0; }
       case I::kIdLsl: case I::kIdLsr: case I::kIdAsr: { unsigned b = reg_bytes(o0.as<Reg>()); uint64_t a = gp_read(o1.as<Reg>()); uint64_t c = (o2.is_imm() ? uint64_t(o2.as<Imm>().value()) : gp_read(o2.as<Reg>())) & (b * 8 - 1); uint64_t r = id == I::kIdLsl ? a << c : id == I::kIdLsr ? a >> c : uint64_t(sext_n(a, b) >> c); gp_write(o0.as<Reg>(), r & mask_n(b)); return 0; }
